@@ -262,7 +262,7 @@ class Ctx:
     self.broken.append(dict(kind=kind, name=name, detail=str(detail)[-3000:]))
 
   # ---- Coq: property file
-  def build_property(self, gen_needed=()):
+  def build_property(self, gen_needed=(), case_libs=('Model/CaseDefs.vo',)):
     """regenerate translated sources, build, compile Properties/<prop>.v; records obligations."""
     prop_v = os.path.join(COQ, 'Properties', self.prop + '.v')
     thms = lemma_closure(prop_v)
@@ -275,7 +275,7 @@ class Ctx:
       if bad_gen:
         self.obligations = [(t, False) for t in thms]
         return False
-      rc, out = make(['Properties/%s.vo' % self.prop])
+      rc, out = make(['Properties/%s.vo' % self.prop] + list(case_libs))
       if rc != 0:
         self.obligations = [(t, False) for t in thms]
         m = re.findall(r'File "([^"]+)", line (\d+)[^\n]*\n(Error:[^\n]*(?:\n[^\n]+){0,6})', out)
